@@ -867,7 +867,7 @@ func (g *GenState) GenPrelude(t *rapid.T) []Action {
 	if g.F.multi && pct(t, "pre_twocoin", 70) {
 		return g.twoCoinPrelude(t)
 	}
-	variant := pick(t, "pre_variant", []string{"standard", "standard", "standard", "refund", "contention", "lastbatch", "standard", "module"})
+	variant := pick(t, "pre_variant", []string{"standard", "standard", "standard", "refund", "contention", "lastbatch", "standard", "module", "earlyanswer"})
 	if ms := g.Cfg.ModSvc; ms != nil && ms.Provider != hx(rep(0x5d, 20)) && pct(t, "pre_twins", 50) {
 		return g.twinEarnersPrelude(t)
 	}
@@ -966,6 +966,43 @@ func (g *GenState) GenPrelude(t *rapid.T) []Action {
 			call.Freq = uint64(timeout)
 		}
 		acts = append(acts, call, endBlock())
+	case "earlyanswer":
+		// every request of a repeated context's batch is answered well before the batch expires (the
+		// batch is complete while its expiry is still queued); then the consumer pauses and restarts,
+		// updates or kills the context inside that window
+		consumer := pick(t, "pre_consumer", Signers)
+		if timeout < 2 {
+			timeout = 2
+			if g.Cfg.MaxTimeout >= 3 && pct(t, "pre_timeout3", 50) {
+				timeout = 3
+			}
+		}
+		if timeout > g.Cfg.MaxTimeout {
+			timeout = g.Cfg.MaxTimeout
+		}
+		call := mkCall(consumer, provs)
+		call.Repeated, call.Timeout, call.FeeCap = true, timeout, i64(1e9)
+		call.Freq = uint64(timeout) + uint64(pick(t, "pre_freq_extra2", []int{0, 1, 3}))
+		call.Total = pick(t, "pre_total2", []int64{-1, 3, 2})
+		acts = append(acts, call, endBlock())
+		valid := RespShapes[0]
+		for i, p := range provs {
+			ref := i
+			acts = append(acts, Action{Kind: KRespond, Signer: p, ReqID: hx(rep(0x22, 58)), ReqRef: &ref, Result: valid.Result, Output: valid.Output, OutClass: valid.Class})
+		}
+		zero := 0
+		switch pick(t, "pre_early_then", []string{"pause_start", "pause_start", "pause", "update", "kill", "none"}) {
+		case "pause_start":
+			acts = append(acts, Action{Kind: KPause, Signer: consumer, CtxID: hx(rep(0x11, 40)), CtxRef: &zero},
+				Action{Kind: KStart, Signer: consumer, CtxID: hx(rep(0x11, 40)), CtxRef: &zero})
+		case "pause":
+			acts = append(acts, Action{Kind: KPause, Signer: consumer, CtxID: hx(rep(0x11, 40)), CtxRef: &zero})
+		case "update":
+			acts = append(acts, Action{Kind: KUpdateCtx, Signer: consumer, CtxID: hx(rep(0x11, 40)), CtxRef: &zero, Freq: uint64(timeout)})
+		case "kill":
+			acts = append(acts, Action{Kind: KKill, Signer: consumer, CtxID: hx(rep(0x11, 40)), CtxRef: &zero})
+		}
+		acts = append(acts, endBlock())
 	case "module":
 		call := mkCall(pick(t, "pre_consumer", Signers), provs)
 		call.Kind = KModCreate
